@@ -11,7 +11,7 @@ use crate::prng::Rng;
 use crate::proc::{HResult, HostStats, Proc};
 use crate::scenario::{apply, fnv64, Obs, Op, Scenario, World};
 
-pub const KINDS: [&str; 14] = [
+pub const KINDS: [&str; 15] = [
     "entropy_reseed",
     "worker_restart",
     "process_restart",
@@ -26,6 +26,7 @@ pub const KINDS: [&str; 14] = [
     "address_slide",
     "fs_wipe",
     "reformat",
+    "fs_tear",
 ];
 
 /// the pinned tree panics on this one (C17's business); here it is history for other expansions
@@ -358,6 +359,11 @@ pub fn plan(seed: u64, corpus: &[Input], thorough: bool) -> Plan {
             order.push(wi);
             bump("fs_wipe");
         }
+        if cfg.fs_wipe && rng.chance(1, 12) {
+            worlds[wi].ops.push(Op::FsTear { seed: rng.next_u64() });
+            order.push(wi);
+            bump("fs_tear");
+        }
         if cfg.heap_fragment && rng.chance(1, 5) {
             let n = rng.range(1, 400);
             worlds[wi].ops.push(Op::Frag { w: wid, seed: rng.next_u64(), n });
@@ -435,6 +441,8 @@ pub struct RunResult {
     pub outcome_classes: BTreeMap<&'static str, u64>,
     pub hist_prefixes: BTreeSet<u64>,
     pub classes_by_event: BTreeMap<(usize, usize), &'static str>,
+    /// `fs_tear` ops that found a file to cut short
+    pub files_torn: u64,
 }
 
 pub fn outcome_class(out: &str) -> &'static str {
@@ -475,6 +483,7 @@ pub fn execute_plan(plan: &Plan) -> HResult<RunResult> {
         outcome_classes: BTreeMap::new(),
         hist_prefixes: BTreeSet::new(),
         classes_by_event: BTreeMap::new(),
+        files_torn: 0,
     };
     // first observation per input *text*
     let mut first_by_text: BTreeMap<&str, Obs> = BTreeMap::new();
@@ -534,6 +543,11 @@ pub fn execute_plan(plan: &Plan) -> HResult<RunResult> {
                 }
             },
             Op::FsWipe => sandbox.wipe(),
+            Op::FsTear { seed } => {
+                if sandbox.tear(*seed) {
+                    res.files_torn += 1;
+                }
+            },
             other => {
                 apply(p, &sc.inputs, other)?;
             },
